@@ -66,3 +66,18 @@ Theorem C12_parse_std_ws : forall C, table_ok (tab C) = true ->
   parse_std_opts C O P i = parse_std_opts C O P (strip (tab C) i).
 Proof. exact parse_std_ws. Qed.
 Print Assumptions C12_parse_std_ws.
+
+(* Standard notation: every well-formed infix string denotes its sentence.  `Rtop W po pc s w`
+   holds for ALL whitespace-free renderings w of s over the alphabet W (the reverse of the
+   standard parse table): every predication of arity >= 2 infix or prefix, binary operations
+   parenthesised, the outermost parentheses kept or dropped; d is any string that becomes w when
+   its whitespace characters are removed (arbitrary extra whitespace, anywhere). *)
+From PT Require Import Lang.StdDenotes.
+Theorem C12_standard_denotes : forall T W O, table_ok T = true -> agree_b T W = true ->
+  tlookup T (popen O) = Some IParenOpen -> tlookup T (pclose O) = Some IParenClose ->
+  drop_parens O = true ->
+  forall s w d, roundtrippable s = true -> Rtop W (popen O) (pclose O) s w -> strip T d = w ->
+  parse_std_opts (cfg_of T false) O (decls s) d = (OK s, decls s) /\
+  parse_std_opts (cfg_of T true) O [] d = (OK s, decls s).
+Proof. exact std_denotes_lang. Qed.
+Print Assumptions C12_standard_denotes.
